@@ -48,12 +48,30 @@ BytesGood == mode = "bytes" => BytesGoodFor(S, p, EmitRow)
 
 (* ---------------------------------------------------------------- value states *)
 VS == Vals(S, ValDepth)
+\* the schema without encoder-side sorting: Enc(Relax(S), v) writes the elements of v in the order given. For a value whose
+\* elements are not in canonical order this is a byte string (of any length) that carries a NON-canonical order: what the model's
+\* decoders say about it is exported as a ROW like that of any other byte string (C03: validated decoding must refuse it).
+RECURSIVE Relax(_)
+Relax(s) ==
+  CASE s.k \in {"slice", "arr"} -> [s EXCEPT !.sort = FALSE, !.e = Relax(s.e)]
+    [] s.k = "struct" -> [s EXCEPT !.f = M([i \in 1..Len(s.f) |-> Relax(s.f[i])])]
+    [] s.k \in {"opt", "eptr"} -> [s EXCEPT !.t = Relax(s.t)]
+    [] OTHER -> s
+RowB(b, r0, r1, e0, e1) == [s |-> Cat[sid].name, b |-> b, r0 |-> r0, r1 |-> r1, e0 |-> e0, e1 |-> e1,
+                            oos |-> r0.ok /\ Oos(S, r0.v)]
+UnsortedGood(v) ==
+  LET e0 == Enc(S, v, FALSE)
+      a  == Enc(Relax(S), v, FALSE)
+      b  == Enc(Relax(S), Rev(S, v), FALSE)
+      bs == (IF a.ok /\ a # e0 THEN {a.b} ELSE {}) \cup (IF b.ok /\ b # e0 THEN {b.b} ELSE {}) IN
+  \A x \in bs : LET EmitB(r0, r1, f0, f1) == Emit => PrintT(<<"ROW", ToJson(RowB(x, r0, r1, f0, f1))>>)
+                 IN  BytesGoodFor(S, x, EmitB)
 ValuesGood ==
   (mode = "vals" /\ Len(p) = 0) =>
      LET vs == VS IN
      \A i \in 1..Len(vs) :
         LET EmitV(e0, e1, c) == Emit => PrintT(<<"VROW", ToJson([s |-> Cat[sid].name, v |-> vs[i], e0 |-> e0, e1 |-> e1, c |-> c])>>)
-        IN  ValGoodFor(S, vs[i], EmitV)
+        IN  ValGoodFor(S, vs[i], EmitV) /\ UnsortedGood(vs[i])
 
 \* the catalogue itself is well formed for the model (no unbounded loop over empty elements)
 RECURSIVE WellFormed(_)
